@@ -2,13 +2,14 @@ SPECIFICATION Spec
 CONSTANTS
     TaskIds = {t1}
     Shapes <- MCShapesDeep
-    Batches <- MCBatchesQuick
+    Batches <- MCBatchesDeep
     DefaultRP = "rp1"
     MaxWrites = 4
     MaxLifecycle = 3
     Dedup = TRUE
     FailCleansUp = TRUE
     MaxDeaths = 0
+    CacheLookup = FALSE
     StopAtFirstError = FALSE
 SYMMETRY MCSymmetry
 INVARIANTS
